@@ -5,15 +5,18 @@ Registry of driver commands.  Each property contributes `FeVerif/Driver/<X>.lean
 import FeVerif.Driver.Frame
 import FeVerif.Driver.Indexer
 import FeVerif.Driver.FileIndex
+import FeVerif.Driver.Reader
 import FeVerif.Driver.Angle
 import FeVerif.Driver.DataVersion
 import FeVerif.Driver.Align
 import FeVerif.Driver.Numpy
+import FeVerif.Driver.C02
+import FeVerif.Driver.Rtcm
 
 namespace FeVerif
 
 def dispatchers : List (String → List String → Option String) :=
-  [dispatchFrame, dispatchIndexer, dispatchFileIndex, dispatchAngle, dispatchDataVersion, dispatchAlign, dispatchNumpy]
+  [dispatchFrame, dispatchIndexer, dispatchFileIndex, dispatchReader, dispatchAngle, dispatchDataVersion, dispatchAlign, dispatchNumpy, dispatchC02, dispatchRtcm]
 
 def dispatch (line : String) : String :=
   match line.splitOn " " with
